@@ -309,6 +309,9 @@ func checkC13(c *Ctx, r *Report) {
 		}
 		r.add("C13.f", "fieldflow", fnk+":truncating-write", "the artifact replaces whatever was at the output path", []string{fnk}, sites, viol)
 	}
+
+	// ---- C13.a (cont.) every in-place sort is a reviewed one
+	ruleSortInventory(c, r, "C13.a")
 }
 
 func sameAlloc(a, b ssa.Value) bool {
